@@ -140,7 +140,13 @@ def dyn_item(item):
             return {c: K.run_tempo(op, d, v, c[0], c[1], mem, unique, eps) for c in combos}
         if method == "mf":
             return {c: K.run_mf(op, d, v, c[0], c[1], mem, unique, eps) for c in combos}
-        pt = K.build_pt(op, mem, unique, eps)
+        file_backed = list(K.UNITARY_ORDER).index(vname) % 3 == 2        # every third rotation: file-backed process tensor
+        pt = K.build_pt(op, mem, unique, eps, file_backed)
+        if file_backed:
+            try:
+                return {c: K.run_pt(pt, d, v, c[0], c[1]) for c in combos}
+            finally:
+                pt.remove()
         if inspect:
             # the user looks at the raw (eigenbasis) tensors and at the transformed ones before using the process tensor,
             # and again between uses: reading must not change what the object computes
